@@ -84,6 +84,17 @@ CHECKS = {
         note=NOTE_COMMON + "Tor's grammar is transcribed by hand (numeric escapes rejected by the spec). Queue assumed idle.",
         technique="Lean 4 round-trip theorem (induction over pairs and characters) + differential correspondence with set_conf",
         ref='§4 C12'),
+    'C20': dict(
+        text=("C20_refines: for EVERY history of ADDRMAP lines (all token forms: local-time field, EXPIRES=, NEVER, <error>, extra flags) and clock "
+              "advances, with any expiry offset past or future, the model's map equals the spec's (Tor's latest mapping per name under the clock: "
+              "same names, addresses, expiry times) and the listeners hear exactly the spec's notifications, step by step; C20_lookup_name; "
+              "C20_replace; spec_all_live. Proved by a refinement invariant (each pending timer is the callLater of the mapping's current expiry) "
+              "through update / tick / advance. Correspondence: real AddrMap on task.Clock with a pinned utcnow; every name and address looked "
+              "up after every input."),
+        note=NOTE_COMMON + "shlex/strptime/utcnow are outside the model (lines enter tokenised). Lookup *by address* (the second dict key) is in the model and "
+             "compared with the spec in the correspondence run under 'no two live names share an address', but is not covered by a theorem; order among timers due in the same advance is not modelled.",
+        technique="Lean 4: refinement of the timer-based map to a latest-mapping spec for all histories; differential correspondence",
+        ref='§4 C20'),
 }
 
 
